@@ -272,6 +272,47 @@ def check_triple(cfg, K, st, viol, big):
     st.add('outcomes', ('t', n, signed, big, cfg['pos']))
 
 
+FAMILY_OPTS = [{}, {'endianness': 'little'}, {'endianness': 'big'}, {'endianness': 'little', 'annotate': False}, {'annotate': False},
+               {'endianness': 'local'}, {'endianness': 'little', 'vectorize': False}, {}]
+
+
+def check_family(n, signed, st):
+    """one module, class K defined again and again with the SAME field lines; only __bisturi__ differs (what a
+    class factory with an endianness parameter does): every one of them follows its own class-wide default"""
+    line = 'x = Int(%d%s)' % (n, ', signed=True' if signed else '')
+    src = ''
+    for i, o in enumerate(FAMILY_OPTS):
+        src += mk.class_src('K', [line, 'y = Int(2)'], o or None) + 'K__%d = K\n' % i
+    pats = [bytes([1] + [0] * (n - 1)), bytes([0x80] + [0x7f] * (n - 1)), bytes(range(1, n + 1))]
+    with mk.World() as w:
+        m = w.module(src)
+        st.inc('programs')
+        for rounds in range(2):             # twice: the second round meets the cache files the first one left
+            for i, o in enumerate(FAMILY_OPTS):
+                K = getattr(m, 'K__%d' % i)
+                big = eff_big(None, o.get('endianness'))
+                for pat in pats:
+                    raw = pat + (b'\x12\x34' if big else b'\x34\x12')
+                    exp = (ref_decode(pat, signed, big), 0x1234)
+                    st.inc('evaluations')
+                    try:
+                        p = K.unpack(raw)
+                        got = (p.x, p.y)
+                        out = K(x=exp[0], y=exp[1]).pack()
+                    except Exception as e:
+                        got, out = repr(e), None
+                    if got != exp or out != raw:
+                        st.violate('same-named classes with identical field lines: wrong byte order',
+                                   'definition #%d of K (%r) in one module: unpack(%r) -> %r, expected %r; pack -> %r | %s' % (
+                                       i, o, raw, got, exp, out, src.replace('\n', '; ')),
+                                   {'family': [n, signed]}, mk.HEADER + src)
+                        return
+            if rounds == 0:
+                # define the whole family once more in the same module file
+                exec(compile(mk.HEADER + src, m.__file__, 'exec'), m.__dict__)
+    st.add('outcomes', ('family', n, signed))
+
+
 def _shard(shard, nshards, payload):
     st = Stats()
     cfgs = configs(payload['tier'])
@@ -282,6 +323,10 @@ def _shard(shard, nshards, payload):
         check_config(cfg, st, full2)
         if i % 397 == common.SEED % 397:
             st.sample({'class': source(cfg), 'decode_patterns': len(decode_patterns(cfg['n'], full2))})
+    fams = [(n, sg) for n in (1, 2, 3, 4, 8) for sg in (False, True)]
+    for i, (n, sg) in enumerate(fams):
+        if i % nshards == shard:
+            check_family(n, sg, st)
     return st
 
 
@@ -311,5 +356,8 @@ def run(tier):
 
 def replay(case):
     st = Stats()
+    if 'family' in case:
+        check_family(case['family'][0], case['family'][1], st)
+        return st.violations
     check_config(case['cfg'], st, True)
     return st.violations
